@@ -28,7 +28,7 @@ REGISTRY = {
     },
     'C14': {
         'world': 'out', 'profile': '',
-        'sessions': {'quick': 280, 'thorough': 4000},
+        'sessions': {'quick': 260, 'thorough': 4000},
         'budget': {'quick': 100, 'thorough': 1500},
         'rule': 'One case = one seeded session of output-generating operations (estimate with html/pickle, '
                 'write_html/latex/f12/pickle, dump_on_file, validate, flat-panel save, load, recycle, TOML dump/read, '
